@@ -12,7 +12,8 @@ SOFT = [(0.25, 0.75, 0.5, 1.0, 0.0, 0.125), (0.5, 0.125, 0.875, 0.25, 1.0, 0.0),
 def cases(tier, seed):
     """Sorted sequences (multisets) of rows (label, group, stratum)."""
     def ms(G, S, nmax, nmin=2):  # n=1 is outside the statement (2..4 groups) and load_data cannot take it
-        strata = [None] if S == 0 else list("uvw"[:S])
+        # control-feature levels deliberately include a FALSY one: integer 0 (even VERIF_SEED) or the empty string (odd)
+        strata = [None] if S == 0 else ([0, 1, 2][:S] if seed % 2 == 0 else ["", "v", "w"][:S])
         rt = [(y, g, s) for s in strata for g in "abcd"[:G] for y in (0, 1)]
         for n in range(nmin, nmax + 1):
             for m in itertools.combinations_with_replacement(range(len(rt)), n):
